@@ -221,3 +221,15 @@ Theorem C20_ext_histories_answered : forall matchf applyf extractf projectf now,
                 Forall xreply_ok (snd (xrun matchf applyf extractf projectf now ds xs)).
 Proof. exact xrun_replies_ok. Qed.
 Print Assumptions C20_ext_histories_answered.
+
+(* ---------------- tie to the source: the listing documents (G8) ----------------
+   Gen/Listing.v is regenerated from transaction.go on every run. *)
+From Lungo.Proofs Require Import GenListing.
+From Lungo.Gen Require Import Listing.
+
+(* no leaf of a listing document is an untyped Go value (which bsonkit.Inspect
+   panics on): the obligation that fails on the tree before /repo 6670a85 *)
+Theorem C20_source_listing_documents_are_bson :
+  tval_typed (TDoc gen_coll_spec) = true /\ tval_typed (TDoc gen_db_spec) = true.
+Proof. exact gen_listing_specs_typed. Qed.
+Print Assumptions C20_source_listing_documents_are_bson.
